@@ -339,6 +339,11 @@ def domain(name, ctx, default, required):
                                                        and x >= HUGE)] + [None, 1.5, "x"]
     if name in FLOAT_LIKE:
         return [L / 4, -1.0, 0.0, math.nextafter(L, 0), L, L + 1, math.nan, math.inf, -math.inf, None, "x"]
+    if name == "positions":
+        # ld_matrix: one or two lists of genome coordinates (rows / columns)
+        Lm = math.nextafter(L, 0)
+        return [None, [[0.0], [0.0]], [[0.0, L]], [[L]], [[0.0], [L]], [[0.0, Lm]], [[-1.0]], [[math.nan]], [[L + 1]],
+                [[0.0, 0.0]], [[Lm, 0.0]], [], [[]], "x", [[0.5], [0.5], [0.5]], [0.0, L], [[math.inf]]]
     if name in IDLIST_LIKE:
         full = list(range(n))
         return [S[:2] if S else [], [], [0], [0, 0], [n], [-1], full, [HUGE], np.array([0.5, 1.5]),
